@@ -78,11 +78,17 @@ T_Log == /\ l <= Len(Trace) /\ E.ev \in {"sb", "se", "arr", "look", "val", "clos
 T_Fin == /\ Ev("fin") /\ verdicts' = AddV(Judge) /\ log' = <<>> /\ l' = l + 1 /\ UNCHANGED tid
 T_Crash == /\ Ev("crash") /\ verdicts' = AddV(<<V("never-crashes-the-process", "panic", [msg |-> E.msg, log |-> [i \in 1..Len(log) |-> log[i].x]])>>)
            /\ log' = <<>> /\ l' = l + 1 /\ UNCHANGED tid
+\* C09 (shared trace): IQ responses are stanzas, whether they go to a waiting SendIQ request or to the ordinary routes
+T_AckH == /\ Ev("ackh")
+          /\ verdicts' = IF E.h = E.want THEN verdicts
+                         ELSE AddV(<<[prop |-> "C09", clause |-> "answer-h-equals-stanzas-received", sig |-> "iq-responses-to-a-pending-request",
+                                     tid |-> tid, idx |-> l, detail |-> [h |-> E.h, want |-> E.want]]>>)
+          /\ l' = l + 1 /\ UNCHANGED <<tid, log>>
 T_Skip == /\ (Ev("note") \/ Ev("errcb") \/ Ev("event") \/ Ev("cutev"))
           /\ l' = l + 1 /\ UNCHANGED <<tid, log, verdicts>>
 T_End == /\ Ev("end") /\ PrintT(<<"VERDICTS", ToJson(VL!All)>>) /\ PrintT(<<"CONSUMED", l>>)
          /\ l' = l + 1 /\ UNCHANGED <<tid, log, verdicts>>
 TraceInit == l = 1 /\ tid = 0 /\ log = <<>> /\ verdicts = 0 /\ VL!InitV
-TraceNext == T_Reset \/ T_Log \/ T_Fin \/ T_Crash \/ T_Skip \/ T_End
+TraceNext == T_Reset \/ T_AckH \/ T_Log \/ T_Fin \/ T_Crash \/ T_Skip \/ T_End
 TraceSpec == TraceInit /\ [][TraceNext]_tvars
 =============================================================================
